@@ -885,3 +885,16 @@ Proof.
   unfold term_fails, exit_fails, gen_exit_op, gen_invol_fails. cbn.
   destruct (negb (c =? gen_exit_lit)%Z || negb v); reflexivity.
 Qed.
+
+(* ------------------------------------------------------------------ success excludes critical failures *)
+(* the contrapositive of critical_failure_reported, as the user reads it: a transition that
+   returned success, or only the error of the task transition, collected no failing critical call *)
+Lemma success_no_critical_failure hooks orc e b s s' t r d i :
+  transition hooks orc e b s = (s', t, r) -> dst_of e (e_st s) = Some d ->
+  r = ROk \/ r = RBody -> In i (collects t) -> critfail i = false.
+Proof.
+  intros Ht Hd Hr Hi. destruct (critfail i) eqn:Hc; [|reflexivity].
+  assert (Hn : r <> RCrash) by (destruct Hr as [-> | ->]; discriminate).
+  destruct (critical_failure_reported _ _ _ _ _ _ _ _ _ _ Ht Hd Hn Hi Hc) as (l & m & f & Hl & _).
+  destruct Hr as [-> | ->]; discriminate.
+Qed.
